@@ -1,2 +1,2 @@
 import XgiModel.C06.Drive
-def main : IO Unit := Xgi.Proto.runDriver Xgi.HG.empty Xgi.C06.Drive.handle
+def main : IO Unit := Xgi.Proto.runDriver Xgi.C06.Drive.St.init Xgi.C06.Drive.handle
